@@ -91,6 +91,8 @@ pub trait MomT: Clone + Send + Sync + 'static {
     fn add(&mut self, x: f64);
     fn merge(&mut self, o: &Self);
     fn observe(&self, out: &mut Vec<Obs>);
+    /// len() as the integer it is (the f64 in `observe` is exact only below 2^53)
+    fn len_u64(&self) -> u64;
     fn to_json(&self) -> String;
     fn from_json(s: &str) -> Self;
     fn debug(&self) -> String;
@@ -98,6 +100,9 @@ pub trait MomT: Clone + Send + Sync + 'static {
     fn collect_ref(v: &[f64]) -> Self;
     fn extend_val(&mut self, v: &[f64]);
     fn extend_ref(&mut self, v: &[f64]);
+    /// the same through an iterator adaptor that does not know its length
+    fn collect_val_lazy(v: &[f64]) -> Self;
+    fn extend_val_lazy(&mut self, v: &[f64]);
     fn par_collect_val(v: &[f64]) -> Self;
     fn par_collect_ref(v: &[f64]) -> Self;
     /// parallel collect with explicit splitting limits (forces many small leaves)
@@ -111,6 +116,9 @@ macro_rules! common_impl {
         }
         fn default_() -> Self {
             <$t as Default>::default()
+        }
+        fn len_u64(&self) -> u64 {
+            <$t>::len(self)
         }
         fn merge(&mut self, o: &Self) {
             Merge::merge(self, o)
@@ -135,6 +143,12 @@ macro_rules! common_impl {
         }
         fn extend_ref(&mut self, v: &[f64]) {
             Extend::extend(self, v.iter())
+        }
+        fn collect_val_lazy(v: &[f64]) -> Self {
+            v.iter().copied().filter(|x| !x.is_nan() || x.is_nan()).collect()
+        }
+        fn extend_val_lazy(&mut self, v: &[f64]) {
+            Extend::extend(self, v.iter().copied().filter(|x| !x.is_nan() || x.is_nan()))
         }
         fn par_collect_val(v: &[f64]) -> Self {
             use rayon::prelude::*;
